@@ -8,7 +8,10 @@ def has_fuel(m):
 
 def prefilter(op, m):
     """Operations whose model evaluation ran out of fuel (unbounded schema recursion that does not
-    pass through the instance) would overflow the Go stack: outside every property's proviso."""
+    pass through the instance) would overflow the Go stack: outside every property's proviso.
+    An operation the driver could not read at all is not sent either (it cannot be shown to be guarded)."""
+    if m is None or "model" not in m:
+        return False
     return not has_fuel(m)
 
 
